@@ -339,6 +339,63 @@ pub fn merge(items: &Vec<&Value>) -> Result<Value, Error> {
     )))
 }
 
+/// Structural equality in which numbers are compared by value.
+///
+/// `Value`'s own `==` distinguishes the representations serde_json keeps for
+/// numbers, so that `1`, `1.0` and `1e0` (or `0` and `-0.0`) are different
+/// values. For membership they are the same number.
+fn deep_eq(first: &Value, second: &Value) -> bool {
+    match (first, second) {
+        (Value::Number(x), Value::Number(y)) => {
+            match (x.as_i64(), y.as_i64(), x.as_u64(), y.as_u64()) {
+                // Two integers: compare exactly (an f64 cannot tell 2^53 from 2^53 + 1).
+                (Some(a), Some(b), _, _) => a == b,
+                (_, _, Some(a), Some(b)) => a == b,
+                _ => {
+                    if (x.is_i64() || x.is_u64()) && (y.is_i64() || y.is_u64()) {
+                        // a negative i64 and a u64 above i64::MAX
+                        false
+                    } else {
+                        number_eq_float(x, y)
+                    }
+                }
+            }
+        }
+        (Value::Array(x), Value::Array(y)) => {
+            x.len() == y.len() && x.iter().zip(y.iter()).all(|(a, b)| deep_eq(a, b))
+        }
+        (Value::Object(x), Value::Object(y)) => {
+            x.len() == y.len()
+                && x.iter()
+                    .all(|(key, a)| y.get(key).map(|b| deep_eq(a, b)).unwrap_or(false))
+        }
+        _ => first == second,
+    }
+}
+
+/// Compare two numbers at least one of which is a float.
+fn number_eq_float(x: &serde_json::Number, y: &serde_json::Number) -> bool {
+    let (float, other) = if x.is_f64() { (x, y) } else { (y, x) };
+    let f = match float.as_f64() {
+        Some(f) => f,
+        None => return false,
+    };
+    if other.is_f64() {
+        return other.as_f64().map(|o| o == f).unwrap_or(false);
+    }
+    // The other one is an integer: equal only if the float is that very integer.
+    if f.fract() != 0.0 {
+        return false;
+    }
+    if let Some(i) = other.as_i64() {
+        f >= -9223372036854775808.0 && f < 9223372036854775808.0 && (f as i64) == i
+    } else if let Some(u) = other.as_u64() {
+        f >= 0.0 && f < 18446744073709551616.0 && (f as u64) == u
+    } else {
+        false
+    }
+}
+
 /// Perform containment checks with "in"
 // TODO: make this a lazy operator, since we don't need to parse things
 // later on in the list if we find something that matches early.
@@ -355,7 +412,9 @@ pub fn in_(items: &Vec<&Value>) -> Result<Value, Error> {
         // implementation is relying on broken, undefined behavior, it seems
         // okay to update that behavior to work in a more intuitive way.
         Value::Null => Ok(Value::Bool(false)),
-        Value::Array(possibles) => Ok(Value::Bool(possibles.contains(needle))),
+        Value::Array(possibles) => Ok(Value::Bool(
+            possibles.iter().any(|item| deep_eq(item, needle)),
+        )),
         Value::String(haystack_string) => {
             // Note: the reference implementation uses the regular old
             // String.prototype.indexOf() function to check for containment,
